@@ -685,7 +685,7 @@ def ancestors_of(node, root):
     return out
 
 
-def r5_application(rep, src):
+def r5_application(rep, src, scripts_hold=False):
     f = src.func('debian_support:patch_lines')
     rep.saw_func(f)
     from ..core import Func, set_parents
@@ -891,6 +891,9 @@ def r5_application(rep, src):
             break
     if good:
         rep.ok('C18.R5', g.site, 'regex selection by input type', good[0][:80], nontrivial=False)
+    elif scripts_hold:
+        # (the pattern is chosen some other way: the interpreted scripts include bytes and str scripts, and they are read as written)
+        rep.info.append('C18.R5 %s: no `isinstance(line, bytes)` selection between the two command patterns found; decided on the interpreted str and bytes scripts' % g.site)
     else:
         rep.fail('C18.R5', g.site, 'regex selection by input type', 'bytes lines are not matched with the bytes regex (or vice versa)', where=g.where)
     # no line in command position is skipped: every path from the top of the command loop either reaches the parsed command or raises
@@ -928,6 +931,8 @@ def r5_application(rep, src):
                 nm.append(n)
     if nm:
         rep.ok('C18.R5', g.site, 'unparsable command line', 'raises ValueError', nontrivial=False)
+    elif scripts_hold:
+        rep.info.append('C18.R5 %s: no `if <match> is None: raise ValueError` guard found in the reader itself; decided on the interpreted malformed scripts' % g.site)
     else:
         rep.fail('C18.R5', g.site, 'unparsable command line', 'a line that is not a command does not raise ValueError', where=g.where)
 
@@ -1010,7 +1015,7 @@ def check(src, rep, tier):
                 rep.error(rule_, str(e_))
             else:
                 rep.info.append('%s: the shape-based reading does not apply (%s); decided on the %d interpreted scripts only' % (rule_, str(e_)[:160], interpreted))
-    rep.guard('C18.R5', r5_application, src)
+    rep.guard('C18.R5', r5_application, src, interpreted is not None and not any(v_.get('rule', '').startswith('C18.R') and v_.get('rule') in ('C18.R2', 'C18.R3') for v_ in rep.violations))
     # refusals are ValueError: the messages of the refusals can be built
     from . import common
     rep.guard('C18.R5', common.check_error_construction, src, 'C18.R5', 'debian_support', ('patches_from_ed_script', 'patch_lines'), 0)
